@@ -1,7 +1,7 @@
 (** Dispatch table of the extracted correspondence driver: each model function wrapped
     as [val -> val].  The harness (harness/model.py) reads the ids and names from the
     comments of [dispatch], so this file is the single registry. *)
-From SE Require Import Base Codecs Fat Stream Transcode Cue.
+From SE Require Import Base Codecs Fat Stream Transcode Cue Names.
 From Coq Require Import Floats.PrimFloat Floats.SpecFloat Floats.FloatOps.
 
 (** floats travel as (kind sign mantissa exponent): kind 0 = finite (value = +-m*2^e,
@@ -88,6 +88,10 @@ Definition vwindow (w : window) : val :=
   VL [vopt (w_title w); VI (w_number w); VI (w_off w); VI (w_size w); VI (w_samples w)].
 Definition unlines (v : val) : list (list Z) := map unVLZ (unVL v).
 
+Definition unelems (v : val) : list (list Z * bool) :=
+  map (fun e => (unVLZ (nth_arg e 0), negb (unVI (nth_arg e 1) =? 0))) (unVL v).
+Definition vnames (l : list (list Z)) : val := VL (map vlistZ l).
+
 Definition dispatch (id : Z) (a : val) : val :=
   match id with
   | 101 (* fast_akai_to_ascii_byte *) => vres VI (fast_akai_to_ascii_byte (unVI a))
@@ -131,5 +135,19 @@ Definition dispatch (id : Z) (a : val) : val :=
       vlistZ (track_pcm (unVLZ (nth_arg a 0))
                 {| w_title := None; w_number := 0; w_off := unVI (nth_arg a 1); w_size := unVI (nth_arg a 2); w_samples := 0 |})
   | 504 (* is_ascii_text *) => vbool (is_ascii_text (unVLZ a))
+  | 601 (* make_safe_name *) => vlistZ (make_safe_name (unVLZ a))
+  | 602 (* make_export_name *) => vlistZ (make_export_name (unVLZ (nth_arg a 0)) (negb (unVI (nth_arg a 1) =? 0)))
+  | 603 (* add_count *) => vlistZ (add_count (unVLZ (nth_arg a 0)) (unVI (nth_arg a 1)))
+  | 604 (* stereo_match *) =>
+      match stereo_match (unVLZ a) with
+      | Some m => VL [VI 1; vlistZ (st_stem m); vlistZ (st_sep m); VI (st_side m)]
+      | None => VL [VI 0]
+      end
+  | 605 (* make_safe_names *) => vres vnames (make_safe_names (unelems a))
+  | 606 (* make_export_names *) => vres vnames (make_export_names (unelems a))
+  | 607 (* combine_stereo *) =>
+      VL (map (fun p => VL [vlistZ (fst p); vlistZ (map Z.of_nat (snd p))]) (combine_stereo (unlines a)))
+  | 608 (* path_tokens *) => vnames (path_tokens (unVLZ a))
+  | 609 (* sanitize_token *) => vlistZ (sanitize_token (negb (unVI (nth_arg a 0) =? 0)) (unVLZ (nth_arg a 1)))
   | _ => vbad
   end.
